@@ -229,6 +229,27 @@ def destroying_op(b, kind, target, others):
         raise ValueError(kind)
 
 
+def churn(b, target):
+    """components come and go in the target storage after the caught panic (index tables, cells and slots
+    are reused in every order), with lookups in between"""
+    rng = b.rng
+    fresh = [b.create([target] + [s for s in b.regs if s != target and rng.random() < 0.3]) for _ in range(rng.randint(3, 5))]
+    rng.shuffle(fresh)
+    for k, hd in enumerate(fresh[:rng.randint(2, len(fresh))]):
+        if rng.random() < 0.75:
+            b.remove(target, hd)
+        else:
+            b.op(DELETE, hd)
+            b.kill([hd])
+        if k % 2 == 1 or rng.random() < 0.3:
+            b.op(GET_ALL, target)
+            b.op(JOIN, target)
+    b.op(MASK, target)
+    b.op(GET_ALL, target)
+    b.op(JOIN, target)
+    b.op(SLICE, target)
+
+
 OP_KINDS = ["clear", "remove", "insert_over", "insert_vacant", "insert_dead", "delete", "delete_many",
             "delete_many_failing", "delete_all", "maintain", "drop_storage", "drop_world"]
 SHAPES = ["dense", "sparse", "single", "empty"]
@@ -268,6 +289,8 @@ def _scenario(b, rng, target, kind, shape, n_others, follow):
         b.create(sids)
     if b.alive and rng.random() < 0.5:
         b.insert(target, rng.choice(b.alive))
+    if target in b.regs and rng.random() < 0.7:
+        churn(b, target)
     k2 = rng.choice(["clear", "delete_all", "delete", "drop_storage", "remove", "maintain", "delete_many", "clear"])
     t2 = rng.choice(b.regs)
     destroying_op(b, k2, t2, [s for s in b.regs if s != t2])
